@@ -171,6 +171,20 @@ CONTRACTS = {
     PKG + ".fitting.elliptical_gaussian": dict(
         params=dict(sx=U("pix", "sigma"), sy=U("pix", "sigma"), theta=DEG),
         ret=lambda a: TOP),
+    PKG + ".regions.Region.sky2ang": dict(
+        params=dict(sky=colarray(LON_RAD, LAT_RAD)),
+        ret=lambda a: colarray(U("rad", "colat"), LON_RAD)),
+    PKG + ".regions.Region.sky2vec": dict(
+        params=dict(sky=colarray(LON_RAD, LAT_RAD)),
+        ret=lambda a: AV(num="obj", cls="vectors")),
+    PKG + ".regions.Region.vec2sky": dict(
+        params=dict(),
+        ret=lambda a: colarray(
+            U("deg" if a.get("degrees", TOP).cval is True else
+              "rad" if a.get("degrees", TOP).cval is False else None, "lon"),
+            U("deg" if a.get("degrees", TOP).cval is True else
+              "rad" if a.get("degrees", TOP).cval is False else None,
+              "lat"))),
     PKG + ".regions.Region.add_circles": dict(
         params=dict(ra_cen=LON_RAD, dec_cen=LAT_RAD, radius=RAD),
         ret=lambda a: NONE),
@@ -201,6 +215,8 @@ PARAM_CLS = {
     (PKG + ".MIMAS.mask_plane", "region"): REGION,
     (PKG + ".MIMAS.mask_plane", "wcs"): AV(num="obj", cls="astropy.WCS"),
     (PKG + ".MIMAS.mask_table", "region"): REGION,
+    (PKG + ".MIMAS.combine_regions", "container"):
+        AV(num="obj", cls=PKG + ".MIMAS.Dummy"),
 }
 GLOBAL_DATA_FIELDS = {"wcshelper": WCSH, "psfhelper": WCSH, "region": REGION}
 
@@ -257,6 +273,17 @@ class UnitLib(Lib):
                 return U(None, "lat")
         return super().param_default(it, fi, name, default)
 
+    def specialisations(self, fi):
+        if fi.qualname == PKG + ".regions.Region.sky_within":
+            # documented: degrees if degin else radians
+            return [
+                {"degin": True, "ra": LON_DEG, "dec": LAT_DEG},
+                {"degin": False, "ra": LON_RAD, "dec": LAT_RAD},
+            ]
+        if fi.qualname == PKG + ".regions.Region.vec2sky":
+            return [{"degrees": True}, {"degrees": False}]
+        return None
+
     def class_attr(self, it, cq, attr):
         if cq in SRC_CLASSES and attr in SRC_FIELDS:
             return SRC_FIELDS[attr]
@@ -276,6 +303,11 @@ class UnitLib(Lib):
                 return AV(num="obj", cls="astropy.WCS")
         if cq == PKG + ".regions.Region" and attr == "maxdepth":
             return INT
+        if cq == PKG + ".MIMAS.Dummy" and attr in (
+                "include_circles", "exclude_circles", "include_polygons",
+                "exclude_polygons"):
+            # documented: "units are degrees"
+            return container(container(DEG))
         return None
 
     def attribute(self, it, n, base, env):
@@ -736,6 +768,12 @@ class UnitLib(Lib):
                 a = args[0]
                 if a.cls == "colarray":
                     return a
+                if a.unit is None and a.kind is None and a.idx is None and \
+                        a.elem is not None and (a.elem.unit is not None or
+                                                a.elem.kind is not None):
+                    # a container of unit-carrying values becomes an array
+                    # carrying that unit
+                    a = a.with_(unit=a.elem.unit, kind=a.elem.kind)
                 if dotted in ("numpy.array", "numpy.asarray"):
                     el = a.elem if a.elem is not None else None
                     # np.array(list(zip(a, b))) -> 2-column array
@@ -759,6 +797,21 @@ class UnitLib(Lib):
                     base = TOP
                 return base.with_(unit=a.unit, kind=a.kind, idx=a.idx,
                                   scale=a.scale, src=base.src | a.src)
+            if dotted in ("numpy.any", "numpy.all", "numpy.sum",
+                          "numpy.nansum", "numpy.max", "numpy.nanmax") and \
+                    args and "axis" in kwargs and \
+                    isinstance(kwargs["axis"].cval, int) and \
+                    kwargs["axis"].cval in (0, 1):
+                # reducing a 2-d array along one axis leaves the other
+                left = "col" if kwargs["axis"].cval == 0 else "row"
+                return AV(num="obj", cls="ndarray", kind=fs("vec_" + left))
+            if dotted == "numpy.where" and len(args) == 1 and \
+                    args[0].kind is not None and \
+                    args[0].kind & {"vec_row", "vec_col"}:
+                ax = "row" if "vec_row" in args[0].kind else "col"
+                v = AV(num="int", exact=True, idx=Idx(ax, 0, ("rel", "?")))
+                return AV(num="obj", cls="indextuple", elts=(
+                    container(v, cls="ndarray").with_(idx=v.idx),))
             if dotted == "numpy.where" and len(args) == 1:
                 a = args[0]
                 fr = a.idx if isinstance(a.idx, Cut) else None
@@ -800,9 +853,12 @@ class UnitLib(Lib):
                 return AV(num="obj", elts=(LON_DEG.with_(src=recv.src),
                                            LAT_DEG.with_(src=recv.src)),
                           src=recv.src)
-            if a in ("copy", "astype", "ravel", "flatten") and \
+            if a in ("copy", "astype", "ravel", "flatten", "reshape",
+                     "tolist") and \
                     (recv.unit is not None or recv.idx is not None or
                      recv.cls == "colarray"):
+                if a == "reshape" and recv.cls == "colarray":
+                    return None
                 return recv
             if a == "reshape" and recv.cls == "colarray" and args:
                 return None
@@ -1117,7 +1173,8 @@ class ContractObs(Observer):
                 w2 = want
                 if isinstance(want.idx, Idx):
                     # axis and origin only; frame is shifted later
-                    w2 = want.with_(idx=Idx(want.idx.axis, None, None))
+                    w2 = want.with_(idx=Idx(want.idx.axis, want.idx.origin,
+                                            None))
                 for m in facet_mismatch(w2, got):
                     self.add(it, node, "lmfit",
                              "initial value of parameter '%s': %s" %
